@@ -1,7 +1,7 @@
 INIT Init
 NEXT Next
 CONSTANTS EqIgnoresMonthSign <- Off
-          AddDropsMonthsOnMixedSigns <- On
+          AddDropsMonthsOnMixedSigns <- Off
 INVARIANT AddRefines
 INVARIANT MulRefines
 INVARIANT EqRefines
@@ -14,5 +14,10 @@ INVARIANT Inv
 INVARIANT NFold
 INVARIANT Order
 INVARIANT ExactByLength
-CONSTANT StdDropsDayCarry <- Off
+INVARIANT AbsOK
+INVARIANT FloorDivOK
+INVARIANT ToWeeksOK
+INVARIANT BoolOK
+INVARIANT StdOK
+CONSTANT StdDropsDayCarry <- On
 CHECK_DEADLOCK FALSE
